@@ -9,13 +9,73 @@ def kw(rng, i):
             "crashes": False, "worker": rng.choice(["asyncio", "trio"])}
 
 
+def addresses(ctx):
+    """scope["client"] / scope["server"] through the real TCPServer of both workers, for the socket families a server can be
+    bound to: (host, port) for IPv4, (host, port) out of IPv6's 4-tuple, None for a unix socket."""
+    import socket
+
+    from . import rig as R
+    from . import rworker as W
+
+    fams = [(socket.AF_INET, ("192.0.2.7", 51234), ("198.51.100.3", 8080), ("192.0.2.7", 51234), ("198.51.100.3", 8080)),
+            (socket.AF_INET6, ("2001:db8::7", 51234, 0, 0), ("fe80::1", 8443, 0, 3), ("2001:db8::7", 51234), ("fe80::1", 8443)),
+            (socket.AF_UNIX, "", "/run/hypercorn.sock", None, None)]
+    fails, n = [], 0
+    seen = []
+
+    async def app(scope, receive, send, sleep, records, now):
+        seen.append((scope.get("client"), scope.get("server")))
+        await send({"type": "http.response.start", "status": 200, "headers": []})
+        await send({"type": "http.response.body", "body": b"ok"})
+
+    import h2.config
+    import h2.connection
+
+    saved = dict(W.SOCK)
+    try:
+        for fam, peer, name, want_client, want_server in fams:
+            W.SOCK.update(family=fam, peer=peer, name=name)
+            for alpn in (None, "h2"):
+                if alpn == "h2":
+                    c = h2.connection.H2Connection(h2.config.H2Configuration(client_side=True, header_encoding=None))
+                    c.initiate_connection()
+                    c.send_headers(1, [(b":method", b"GET"), (b":path", b"/a"), (b":scheme", b"https"), (b":authority", b"x")], end_stream=True)
+                    script = [("send", c.data_to_send()), ("sleep", 0.5)]
+                else:
+                    script = [("send", b"GET /a HTTP/1.1\r\nHost: x\r\n\r\n"), ("sleep", 0.5)]
+                for backend, run in (("asyncio", W.run_asyncio), ("trio", W.run_trio)):
+                    del seen[:]
+                    cfg = R.make_config(())
+                    cfg._log = R.RecLog([])
+                    run(app, cfg, script, alpn=alpn, tail=10.0)
+                    n += 1
+                    got = seen[0] if seen else None
+                    norm = None if got is None else tuple(None if x is None else tuple(x) for x in got)
+                    if norm != (want_client, want_server):
+                        fails.append({"case": {"kind": "addresses", "backend": backend, "family": int(fam), "alpn": alpn, "peer": repr(peer), "sock": repr(name)},
+                                      "what": f"scope client/server = {got!r}, expected {(want_client, want_server)!r}", "signature": "c01:addresses"})
+    finally:
+        W.SOCK.update(saved)
+    return fails, n
+
+
 def run(ctx):
+    h2x = K.h2_extra(["c01"], (150, 2500, 800), crashes=True)
+
+    def extra(c):
+        r = h2x(c)
+        f, n = addresses(c)
+        r["failures"] = list(r["failures"]) + f
+        r["count"] += n
+        r["dist"]["address_cases"] = n
+        return r
+
     return K.run_common(ctx, PROP, ["c01"], (250, 3000, 1000), (300, 3000, 1000), (250, 4000, 1500), kw,
                         "H11 protocol sessions (pipelines, bodies with content-length / chunked / none, HTTP/1.0, splits at random "
                         "points) against the H11Proto model; HTTPStream call sequences against the stream model; end-to-end "
                         "sessions (methods, targets with queries and escapes, repeated / mixed-case / empty headers, bodies from 0 "
                         "to 70000 bytes, queue sizes 1/2/10, random task schedules, k-way splits) checked against what the client sent.",
-                        extra=K.h2_extra(["c01"], (150, 2500, 800), crashes=True))
+                        extra=extra)
 
 
 def known_still_fails(k):
